@@ -266,6 +266,49 @@ Section Proofs.
     - intros g. symmetry. apply backoff_keys_fixed; [exact Hcl|lia].
   Qed.
 
+  (* ---- the rewind window of pass 2: one context can be followed by every word of the UNION vocabulary, never by more --- *)
+  Definition words_listed (cs : list (comp K)) : Prop :=
+    forall g, In g (union_ngrams cs) -> g <> [] -> In [last g UNK] (union_ngrams cs).
+
+  Lemma NoDup_map_inj_in : forall {A B} (f : A -> B) (l : list A),
+    (forall x y, In x l -> In y l -> f x = f y -> x = y) -> NoDup l -> NoDup (map f l).
+  Proof.
+    intros A B f l Hinj Hnd. induction Hnd as [|x l Hx Hl IH]; simpl; constructor.
+    - intros Hin. apply in_map_iff in Hin as [y [Hy Hyl]]. assert (y = x) by (apply Hinj; [now right|now left|exact Hy]).
+      subst y. contradiction.
+    - apply IH. intros a b Ha Hb. apply Hinj; now right.
+  Qed.
+
+  Lemma is_follower_spec : forall c g, is_follower c g = true <-> g <> [] /\ removelast g = c.
+  Proof.
+    intros c g. unfold is_follower. destruct g as [|x g]; [split; [discriminate|intros [H _]; congruence]|].
+    rewrite ngram_eqb_eq. split; [intros H; split; [discriminate|exact H]|intros [_ H]; exact H].
+  Qed.
+
+  Theorem followers_bound : forall cs c, words_listed cs ->
+    length (followers K cs c) <= length (union_unigrams K cs).
+  Proof.
+    intros cs c Hw. unfold followers, followers_in, union_unigrams.
+    set (F := filter (is_follower c) (union_ngrams cs)).
+    assert (Hnd : NoDup F) by (apply NoDup_filter; apply dedup_NoDup).
+    assert (HF : forall g, In g F -> In g (union_ngrams cs) /\ g <> [] /\ removelast g = c).
+    { intros g Hg. apply filter_In in Hg as [H1 H2]. apply is_follower_spec in H2. tauto. }
+    apply Nat.le_trans with (length (map (fun g : ngram => [last g UNK]) F)); [rewrite map_length; apply Nat.le_refl|].
+    apply NoDup_incl_length.
+    - apply NoDup_map_inj_in; [|exact Hnd]. intros x y Hx Hy E.
+      destruct (HF x Hx) as [_ [Hx1 Hx2]]. destruct (HF y Hy) as [_ [Hy1 Hy2]].
+      rewrite (app_removelast_last_ngram x Hx1), (app_removelast_last_ngram y Hy1), Hx2, Hy2. inversion E. reflexivity.
+    - intros u Hu. apply in_map_iff in Hu as [g [<- Hg]]. destruct (HF g Hg) as [H1 [H2 _]].
+      apply of_order_In. split; [now apply Hw|reflexivity].
+  Qed.
+
+  Corollary max_followers_bound : forall cs k, words_listed cs -> max_followers K cs k <= length (union_unigrams K cs).
+  Proof.
+    intros cs k Hw. unfold max_followers. cbv zeta.
+    induction (dedup (map (@removelast _) (of_order k (union_ngrams cs)))) as [|c l IH]; simpl; [lia|].
+    pose proof (followers_bound cs c Hw) as H. unfold followers in H. lia.
+  Qed.
+
   Theorem mixed_order_fixed : forall cs, context_closed cs ->
     reunify_ok K true cs = true /\
     forall k g, 1 <= k < max_order cs -> (In g (backoff_keys true cs k) <-> In g (prob_keys cs k)).
@@ -287,6 +330,21 @@ Proof.
   split; [|split; vm_compute; reflexivity].
   intros g Hg Hlen. vm_compute in Hg.
   repeat (destruct Hg as [<-|Hg]; [vm_compute; try tauto; simpl in Hlen; try lia|]); try destruct Hg.
+Qed.
+
+(* the bound is attained, and no component-wise bound holds: three components over disjoint vocabularies {1,2}, {3,4}, {5,6}
+   (0 = <unk>): the unigram context is followed by all 7 words of the union, each component lists only 3 *)
+Definition dj (a b : N) : Zcomp := {| c_order := 2; c_lambda := 1%Z;
+  c_tbl := [([0%N], (-8, 0)%Z); ([a], (-2, -1)%Z); ([b], (-2, -1)%Z); ([a; b], (-1, 0)%Z)] |}.
+
+Lemma rewind_window_component_bound_refuted :
+  let cs := [dj 1 2; dj 3 4; dj 5 6] in
+  words_listed Z cs /\
+  max_followers Z cs 1 = 7 /\ length (union_unigrams Z cs) = 7 /\ max_comp_vocab Z cs = 3.
+Proof.
+  cbv zeta. split; [|repeat split; vm_compute; reflexivity].
+  intros g Hg Hne. vm_compute in Hg.
+  repeat (destruct Hg as [<-|Hg]; [vm_compute; tauto|]). destruct Hg.
 Qed.
 
 (* the hypotheses of arpa_represents_formula are satisfiable (K = Z, logZ = 0 everywhere) *)
